@@ -349,6 +349,83 @@ class World:  # pylint: disable=too-many-instance-attributes
             self.model[key] = data
         return list(keys)
 
+    # ------------------------------------------------------------------ read calls nested inside an iteration
+    def r_nested(self, op):
+        return {'outer': op['b'] % 3, 'inner': op['b'] // 3 % 4, 'every': 1 + op['a'] % 3, 'pick': op['a'], 'stop': op['f'] % 8 == 0}
+
+    def x_nested(self, rop):
+        """The consumer of a generator (listing, bulk metadata, bulk streams) issues other read calls on the same handle between
+        two items, as a loop body naturally does. Every answer must agree with the model."""
+        from disk_objectstore.exceptions import NotExistent  # pylint: disable=import-outside-toplevel
+
+        cont = self.c
+        keys = sorted(self.model)
+        absent = absent_key(self.hash_type, 3)
+        query = keys + [absent]
+        inner_kind = rop['inner']
+
+        def inner(i):
+            if inner_kind == 0:
+                if cont.has_object(absent):
+                    raise self.viol('nested:has-absent', 'has_object(absent key) is True inside an iteration')
+            elif inner_kind == 1 and keys:
+                key = keys[(rop['pick'] + i) % len(keys)]
+                if cont.get_object_content(key) != self.model[key]:
+                    raise self.viol('nested:get', f'get_object_content({key[:10]}) wrong inside an iteration')
+            elif inner_kind == 2:
+                try:
+                    cont.get_object_meta(absent)
+                except NotExistent:
+                    pass
+                else:
+                    raise self.viol('nested:meta-absent', 'get_object_meta(absent key) answered inside an iteration')
+            else:
+                got = cont.has_objects(query)
+                if got != [True] * len(keys) + [False]:
+                    raise self.viol('nested:has_objects', f'has_objects inside an iteration = {got}')
+
+        seen = []
+        if rop['outer'] == 0:
+            for i, key in enumerate(cont.list_all_objects()):
+                seen.append(key)
+                if i % rop['every'] == 0:
+                    inner(i)
+                if rop['stop'] and i >= 1:
+                    break
+            want = set(keys)
+        elif rop['outer'] == 1:
+            for i, (key, meta) in enumerate(cont.get_objects_meta(query, skip_if_missing=False)):
+                seen.append(key)
+                if key in self.model and meta.size != len(self.model[key]):
+                    raise self.viol('nested:meta-size', f'size {meta.size} for {key[:10]} inside a nested iteration')
+                if i % rop['every'] == 0:
+                    inner(i)
+                if rop['stop'] and i >= 1:
+                    break
+            want = set(query)
+        else:
+            with cont.get_objects_stream_and_meta(query, skip_if_missing=False) as triplets:
+                for i, (key, stream, _meta) in enumerate(triplets):
+                    seen.append(key)
+                    if i % rop['every'] == 0:
+                        inner(i)
+                    if key in self.model:
+                        if stream is None or stream.read() != self.model[key]:
+                            raise self.viol('nested:stream', f'stream of {key[:10]} wrong after a nested call')
+                    elif stream is not None:
+                        raise self.viol('nested:stream-absent', 'a stream was returned for an absent key')
+                    if rop['stop'] and i >= 1:
+                        break
+            want = set(query)
+        if len(seen) != len(set(seen)):
+            raise self.viol('nested:dup', 'an iteration with nested calls yielded a key twice')
+        if not rop['stop'] and set(seen) != want:
+            raise self.viol('nested:set', f'iteration with nested calls yielded {len(seen)} keys, expected {len(want)}')
+        if rop['stop'] and not set(seen) <= want:
+            raise self.viol('nested:set', 'iteration with nested calls yielded an unexpected key')
+        self.flags.add('nested-read')
+        return len(seen)
+
     # ------------------------------------------------------------------ a write call whose input stream fails
     def r_addfail(self, op):
         idx = (op['n'] or [op['a']])[:4]
